@@ -54,6 +54,7 @@ ComponentsBad(e, x) ==
 RefBad(e) ==
   LET x == X(e) IN
   IF ~WellFormed(x) \/ e.s # Str(x) THEN "tooling:scenario"
+  ELSE IF e.again = 0 THEN "history: the same string parsed differently the second time"
   ELSE IF e.ok = 1 /\ ~InGrammar(x) THEN "grammar: string outside the grammar accepted"
   ELSE IF e.ok = 0 /\ InGrammar(x) THEN "grammar: string inside the grammar rejected"
   ELSE IF e.ok = 0 THEN ""
@@ -71,7 +72,8 @@ HostBad(e) ==
 
 \* an accepted string has no character outside the alphabet of the grammar (e.alien is computed by the
 \* driver, character by character, without regular expressions)
-MutantBad(e) == IF e.ok = 0 THEN ""
+MutantBad(e) == IF e.again = 0 THEN "history: the same string parsed differently the second time"
+                ELSE IF e.ok = 0 THEN ""
                 ELSE IF e.alien = 1 THEN "grammar: string with a character outside the alphabet accepted"
                 ELSE First(Laws(e))
 
